@@ -15,6 +15,7 @@ import time
 import traceback
 from pathlib import Path
 
+from . import cov  # noqa: F401  (VERIF_COVERAGE=<file>: diagnostic line coverage of the library, off by default)
 from . import common
 from .common import VERIF, Case, Infra, Result
 
